@@ -114,6 +114,15 @@ func c16Entries() []c16Entry {
 		{name: "iri-as:Public", ident: "as:Public", mk: func() ap.Item { return ap.IRI("as:Public") }},
 		{name: "iri-PublicNS", ident: string(ap.PublicNS), mk: func() ap.Item { return ap.PublicNS }},
 		{name: "iri-ipv6", ident: "https://[2001:db8::1]/a", mk: func() ap.Item { return ap.IRI("https://[2001:db8::1]/a") }},
+		// value forms that stay as they are (no id), a link by value
+		{name: "obj-noid-value", ident: "", mk: func() ap.Item { return ap.Object{Type: ap.NoteType, Name: name("anonymous value")} }},
+		{name: "link-value", ident: "", mk: func() ap.Item { return ap.Link{Type: ap.MentionType, Href: "https://example.com/hv"} }},
+		// embedded objects whose id is not something net/url accepts (a raw %, a first segment with a colon, a non-numeric port,
+		// a blank in the host): an id is whatever the object carries, the object is replaced by it all the same
+		{name: "*obj-id-raw-percent", ident: "https://example.com/tags/100%", want: "iri:https://example.com/tags/100%", mk: func() ap.Item { return &ap.Object{ID: "https://example.com/tags/100%", Type: ap.NoteType} }},
+		{name: "*obj-id-colon-segment", ident: "2024-05-01T10:00:00Z/note", want: "iri:2024-05-01T10:00:00Z/note", mk: func() ap.Item { return &ap.Object{ID: "2024-05-01T10:00:00Z/note", Type: ap.NoteType} }},
+		{name: "*actor-id-bad-port", ident: "https://example.com:port/u", want: "iri:https://example.com:port/u", mk: func() ap.Item { return &ap.Actor{ID: "https://example.com:port/u", Type: ap.PersonType} }},
+		{name: "*obj-id-blank-host", ident: "https://exa mple.com/x", want: "iri:https://exa mple.com/x", mk: func() ap.Item { return &ap.Object{ID: "https://exa mple.com/x", Type: ap.NoteType} }},
 	}
 	for i := range es {
 		if es[i].want == "" {
@@ -348,6 +357,15 @@ func c16Collections(c *engine.Ctx, entries []c16Entry, L int) {
 				return
 			}
 			for x := range entries {
+				ext := x >= 11
+				for _, y := range cur {
+					if y >= 11 {
+						ext = true
+					}
+				}
+				if ext && len(cur) >= 2 {
+					continue
+				}
 				rec(append(append([]int{}, cur...), x))
 			}
 		}
@@ -540,6 +558,16 @@ func c16Run(c *engine.Ctx) {
 					return
 				}
 				for x := range entries {
+					// the entries after the first eleven (other spellings, value forms, odd ids) appear in lists of at most two
+					ext := x >= 11
+					for _, y := range cur {
+						if y >= 11 {
+							ext = true
+						}
+					}
+					if ext && len(cur) >= 2 {
+						continue
+					}
 					rec(append(cur, x))
 				}
 			}
